@@ -5,6 +5,8 @@ import CkcVerif.Props.C07
 import CkcVerif.Props.C09
 import CkcVerif.Props.C10
 import CkcVerif.Props.C18
+import CkcVerif.Props.C15
+import CkcVerif.Props.C16
 /-!
 # The properties, stated about the translated source (C06, C07, C09, C10, C18)
 -/
@@ -98,6 +100,37 @@ theorem C09_source {cs g f : List Card} (h : IsHand 7 cs) (hg : g ∈ combos 6 c
   exact ⟨v7, v6, v5, ((srcValue_eq _ (by omega)).1).trans e7, ((srcValue_eq _ (by omega)).1).trans e6,
     ((srcValue_eq _ (by omega)).1).trans e5, b⟩
 
+/-- C15 for the source: the set operations are set operations (union, subset test, count, validity), and the set of a
+    hand / of a text holds exactly the cards in its slots / named by its tokens -/
+theorem C15_source_sets (x y : Nat) :
+    (∃ u, Src.u64.fold_in x y = some u ∧ ∀ k, u.testBit k = (x.testBit k || y.testBit k)) ∧
+    (∃ b, Src.u64.has x y = some b ∧ (b = true ↔ ∀ k, y.testBit k = true → x.testBit k = true)) ∧
+    Src.u64.number_of_cards x = some (((List.range 64).filter (fun k => x.testBit k)).length) ∧
+    (x < 2 ^ 64 → ∃ v, Src.u64.is_valid x = some v ∧ (v = true ↔ (x ≠ 0 ∧ ∀ k, 52 ≤ k → x.testBit k = false))) := by
+  refine ⟨⟨_, u64_fold_in x y, fun k => C15.C15_fold_in x y k⟩, ⟨_, u64_has x y, C15.C15_has x y⟩, ?_, ?_⟩
+  · rw [u64_number_of_cards, C15.C15_count]
+  · intro hx; exact ⟨_, u64_is_valid x, C15.C15_valid x hx⟩
+
+theorem C15_source_from (a b c d e : Nat) (s : List Nat) (k : Nat) :
+    (∃ u, Src.u64.from_five [a, b, c, d, e] = some u ∧
+      (u.testBit k = true ↔ (k < 52 ∧ deckWords.getD (51 - k) 0 ∈ [a, b, c, d, e]))) ∧
+    Src.u64.from_index s = some (bcFromHand ((tokens s).map fromIndex)) :=
+  ⟨⟨_, u64_from_five a b c d e, C15.C15_from_hand _ k⟩, (u64_from_index s).trans (congrArg some (C15.C15_from_text s))⟩
+
+/-- C16 for the source: conversion succeeds exactly for two card bits -/
+theorem C16_source_success (x : Nat) (hx : x < 2 ^ 64) :
+    (∃ a b, Src.Two.try_from__2 x = some (Except.ok [a, b])) ↔ (∃ i j, j < i ∧ i < 52 ∧ x = 2 ^ i ||| 2 ^ j) := by
+  rw [← C16.C16_success_iff x hx, Two_try_from__2]
+  constructor
+  · rintro ⟨a, b, h⟩
+    cases hr : twoFromBc x with
+    | ok a' b' => exact ⟨a', b', rfl⟩
+    | notEnoughCards => rw [hr] at h; simp [resultCode] at h
+    | tooManyCards => rw [hr] at h; simp [resultCode] at h
+    | invalidBinaryFormat => rw [hr] at h; simp [resultCode] at h
+  · rintro ⟨a, b, h⟩
+    exact ⟨a, b, by rw [h]; rfl⟩
+
 end Tie
 
 /-! ## axiom audit (written by tools/tie.py --audit) -/
@@ -106,3 +139,6 @@ end Tie
 #print axioms Tie.C07_source
 #print axioms Tie.C06_source
 #print axioms Tie.C09_source
+#print axioms Tie.C15_source_sets
+#print axioms Tie.C15_source_from
+#print axioms Tie.C16_source_success
